@@ -12,6 +12,10 @@ fn paren(s: &str) -> String {
 }
 
 pub fn app(f: &str, args: &[String]) -> String {
+    if f.is_empty() && args.len() == 1 {
+        // newtype over its only field
+        return args[0].clone();
+    }
     if args.is_empty() {
         f.to_string()
     } else {
@@ -180,6 +184,10 @@ impl<'a> Tr<'a> {
     }
 
     pub fn pure_via_k(&mut self, e: &Expr, env: &Env, hint: Option<&Ty>) -> R<Val> {
+        let eff = self.effects_expr(e);
+        if eff.ret || !eff.assigned.is_empty() {
+            return Err(unsupported(e, &format!("{} with control flow / assignments in an operand position that is not hoisted", kind_of(e))));
+        }
         let cell: std::cell::RefCell<Option<Ty>> = std::cell::RefCell::new(None);
         let s = self.expr_k(e, env, hint, &|_tr, v| {
             let mut c = cell.borrow_mut();
@@ -203,6 +211,9 @@ impl<'a> Tr<'a> {
                     Member::Unnamed(i) => i.index.to_string(),
                 };
                 let f = s.fields.iter().find(|f| f.name == fname).ok_or_else(|| unsupported(at, &format!("`{}` has no field `{}`", n, fname)))?;
+                if f.proj.is_empty() {
+                    return Ok(Val { s: b.s.clone(), ty: f.ty.clone() });
+                }
                 if f.proj == "-" {
                     return Err(unsupported(at, &format!("field `{}` of `{}` has no projection in the configured mapping", fname, n)));
                 }
@@ -425,6 +436,9 @@ impl<'a> Tr<'a> {
         if segs.len() == 1 {
             let n = &segs[0];
             if let Some(v) = env.get(n) {
+                if let Some(a) = &v.alias {
+                    return self.read_alias(a, env, at);
+                }
                 return Ok(Val { s: v.coq.clone(), ty: v.ty.clone() });
             }
             if n == "None" {
@@ -434,8 +448,18 @@ impl<'a> Tr<'a> {
                 };
                 return Ok(Val { s: "None".into(), ty });
             }
+            {
+                let rn = self.resolve_type_name(n);
+                if let Some(st) = self.t.struct_info(&rn) {
+                    if st.fields.is_empty() {
+                        return Ok(Val { s: st.ctor.clone(), ty: Ty::Adt(rn) });
+                    }
+                }
+            }
             if let Some(c) = self.t.consts.iter().find(|c| c.key == *n) {
-                return Ok(Val { s: c.coq.clone(), ty: c.ty.clone() });
+                let c = c.clone();
+                let ma = self.mvar_args(&c.mvars, env, at)?;
+                return Ok(Val { s: app(&c.coq, &ma), ty: c.ty.clone() });
             }
             return Err(unsupported(at, &format!("name `{}` is not a local variable, parameter or configured const", n)));
         }
@@ -448,10 +472,19 @@ impl<'a> Tr<'a> {
                     _ => Err(unsupported(at, &format!("`{}::{}`", segs[0], segs[1]))),
                 };
             }
-            let tn = if segs[0] == "Self" { self.self_ty.clone().unwrap_or_default() } else { segs[0].clone() };
+            let tn = self.resolve_type_name(&segs[0]);
             let key = format!("{}::{}", tn, segs[1]);
             if let Some(c) = self.t.consts.iter().find(|c| c.key == key) {
-                return Ok(Val { s: c.coq.clone(), ty: c.ty.clone() });
+                let c = c.clone();
+                let ma = self.mvar_args(&c.mvars, env, at)?;
+                return Ok(Val { s: app(&c.coq, &ma), ty: c.ty.clone() });
+            }
+            if let Some(x) = self.t.externs.get(&tn) {
+                if let Some((_, ty, f)) = x.consts.iter().find(|c| c.0 == segs[1]) {
+                    let row = self.extern_row(x, env, at)?;
+                    let ty = if *ty == Ty::Extern("Self".into()) { Ty::Extern(tn.clone()) } else { ty.clone() };
+                    return Ok(Val { s: app(f, &row), ty });
+                }
             }
             if let Some(e) = self.t.enum_info(&tn) {
                 if let Some(v) = e.variants.iter().find(|v| v.name == segs[1]) {
@@ -466,15 +499,34 @@ impl<'a> Tr<'a> {
         Err(unsupported(at, &format!("path `{}`", segs.join("::"))))
     }
 
+    /// the variables bound to the macro parameters a callee depends on
+    pub fn mvar_args<T: syn::spanned::Spanned>(&self, mvars: &[String], env: &Env, at: &T) -> R<Vec<String>> {
+        let mut out = vec![];
+        for m in mvars {
+            match env.get(m) {
+                Some(v) => out.push(v.coq.clone()),
+                None => return Err(unsupported(at, &format!("macro parameter `{}` needed by the callee is not in scope", m))),
+            }
+        }
+        Ok(out)
+    }
+
+    pub fn extern_row<T: syn::spanned::Spanned>(&self, x: &ExternInfo, env: &Env, at: &T) -> R<Vec<String>> {
+        match &x.row {
+            Some(r) => self.mvar_args(&[r.clone()], env, at),
+            None => Ok(vec![]),
+        }
+    }
+
     pub fn struct_lit(&mut self, s: &ExprStruct, env: &Env) -> R<Val> {
         let at = &Expr::Struct(s.clone());
         let segs: Vec<String> = s.path.segments.iter().map(|x| x.ident.to_string()).collect();
         let (ctor, ftys, ty) = if segs.len() == 1 {
-            let sn = if segs[0] == "Self" { self.self_ty.clone().unwrap_or_default() } else { segs[0].clone() };
+            let sn = self.resolve_type_name(&segs[0]);
             let (c, f) = self.variant_or_struct(&s.path, &Ty::Infer, at)?;
             (c, f, Ty::Adt(sn))
         } else {
-            let en = if segs[0] == "Self" { self.self_ty.clone().unwrap_or_default() } else { segs[0].clone() };
+            let en = self.resolve_type_name(&segs[0]);
             let (c, f) = self.variant_or_struct(&s.path, &Ty::Infer, at)?;
             (c, f, Ty::Adt(en))
         };
